@@ -31,9 +31,9 @@ def classify(scn, line):
     acked_secs, swept_secs = set(), set()
     for x in scn[:line - 1]:
         if x["op"] == "insert" and x["ok"]:
-            en[(x["s"], x["id"])] = x
+            en[(x["s"], x["id"], "in" if x["kind"] == "pubrec" else "out")] = x
         elif x["op"] == "ack" and x["ok"]:
-            k = (x["s"], x["id"])
+            k = (x["s"], x["id"], "in" if x["ty"] == "PUBREL" else "out")
             if k in en:
                 acked_secs.add(round(en[k]["d"] / 1000.0))
                 del en[k]
@@ -57,7 +57,7 @@ def classify(scn, line):
             return "sweep-fires-early"
         return "sweep-other"
     if e["op"] == "ack":
-        k = (e["s"], e["id"])
+        k = (e["s"], e["id"], "in" if e["ty"] == "PUBREL" else "out")
         if k in en and en[k]["kind"] is not None:
             exp = {"pub1": "PUBACK", "pub2": "PUBREC", "pubrec": "PUBREL", "pubrel": "PUBCOMP"}[en[k]["kind"]]
             if exp != e["ty"]:
@@ -65,7 +65,7 @@ def classify(scn, line):
             return "ack-expected-type-" + ("refused" if not e["ok"] else "callbacks-%d" % len(e["cbs"]))
         return "ack-unknown-key-" + ("accepted" if e["ok"] else "ran-callback")
     if e["op"] == "insert":
-        k = (e["s"], e["id"])
+        k = (e["s"], e["id"], "in" if e["kind"] == "pubrec" else "out")
         if k in en:
             return "insert-duplicate-accepted" if e["ok"] else "insert-duplicate-other"
         return "insert-" + ("refused" if not e["ok"] else "accepted-unregistrable")
